@@ -10,6 +10,10 @@ pub trait Service: Actor + Default {
 }
 pub uninterp spec fn service_chan<S>() -> int;           // the mailbox of the currently registered live instance of service S
 #[verifier::external_body] #[verifier::accept_recursive_types(A)] pub struct Context<A> { p: core::marker::PhantomData<A> }
+impl<A: Actor> Context<A> {
+    // context.rs Context::weak_sender (proved in unit ctx)
+    #[verifier::external_body] pub fn weak_sender<M: Message<Response = ()>>(&self) -> (r: WeakSender<M>) where A: Handler<M> { unimplemented!() }
+}
 #[verifier::external_body] #[verifier::accept_recursive_types(A)] pub struct Addr<A> { p: core::marker::PhantomData<A> }
 pub uninterp spec fn mid_of<M>(m: &M) -> int;
 // one submit: Ok means exactly one enqueue of this message on that queue through that path, Err means none
